@@ -42,6 +42,9 @@ pub struct Scn {
 	pub gen_kind: String,
 	/// the value the bytes are a valid encoding of, if they are
 	pub valid_of: Option<Val>,
+	/// the valid encoding uses positive block counts only (no size-prefixed blocks an ignoring reader may skip unseen)
+	#[serde(default)]
+	pub positive_counts_only: bool,
 	pub limits: Limits,
 	pub target: Target,
 	pub path: Path,
@@ -213,13 +216,19 @@ impl Prop for C04 {
 				input: Input::Deep { kind, depth, terminated: rng.chance(3, 4) },
 				gen_kind: "deep".into(),
 				valid_of: None,
+				positive_counts_only: false,
 				limits,
 				target,
 				path,
 			};
 		}
 		let corner = ast::corner_schemas();
-		let schema = if rng.chance(1, 8) {
+		let mut scale = None;
+		let schema = if rng.chance(1, 60) {
+			let (ty, sc) = ast::gen_scale_schema(rng, true);
+			scale = Some(sc);
+			ty
+		} else if rng.chance(1, 8) {
 			rng.pick(&corner).clone()
 		} else {
 			let mut cfg = GenCfg::default_swarm(rng);
@@ -227,7 +236,7 @@ impl Prop for C04 {
 			ast::gen_schema(rng, cfg)
 		};
 		let env = Env::build(&schema);
-		let vcfg = ValCfg { max_len: 1 + rng.usize(12), max_depth: 5, budget: 8 + rng.below(60) as i32, str_boost: 0 };
+		let vcfg = ValCfg { max_len: 1 + rng.usize(12), max_depth: 5, budget: 8 + rng.below(60) as i32, str_boost: 0, scale: None }.with_scale(scale);
 		let v = val::gen_val(rng, &env, &schema, &vcfg);
 		let layout = Layout { seed: rng.next_u64(), split_blocks: rng.bool(), negative_counts: rng.chance(1, 3), pad_varints: 0 };
 		let (mut bytes, tokens) = ref_datum::encode(&env, &schema, &v, layout).expect("HARNESS: reference encoder rejected a generated value");
@@ -296,7 +305,7 @@ impl Prop for C04 {
 				"random".into()
 			}
 		};
-		Scn { schema, input: Input::Bytes(bytes), gen_kind, valid_of, limits, target, path }
+		Scn { schema, input: Input::Bytes(bytes), gen_kind, valid_of, positive_counts_only: !layout.negative_counts, limits, target, path }
 	}
 
 	fn exec(&self, scn: &Scn) -> Outcome {
@@ -319,6 +328,9 @@ impl Prop for C04 {
 		};
 		let len = bytes.len();
 		let alloc_free_target = matches!(scn.target, Target::Hash | Target::Ignored);
+		// work bound, in visitor callbacks: the ignoring target gives up right above it instead of spinning
+		let cb_bound = (len as u64 + 2) * (scn.limits.max_seq_size as u64 + 2) * 4 + 64;
+		world::IGNORE_CALLBACK_CAP.with(|c| c.set(cb_bound + 1));
 		let guard = simalloc::MeasureGuard::start();
 		let (dec, src_stats) = match &scn.path {
 			Path::Slice => (world::decode_slice(&schema, &env, &scn.schema, bytes, scn.target, scn.limits), None),
@@ -388,7 +400,9 @@ impl Prop for C04 {
 			return out;
 		}
 		// work
-		let cb_bound = (len as u64 + 2) * (lim.max_seq_size as u64 + 2) * 4 + 64;
+		if matches!(scn.target, Target::Ignored) && dec.callbacks > 0 {
+			out.count("ignored_target_callbacks_counted", 1);
+		}
 		if dec.callbacks > cb_bound {
 			out.fail("C04:work-not-bounded-by-input-and-limits", format!("{} visitor callbacks for {len} bytes with max_seq_size {}", dec.callbacks, lim.max_seq_size));
 			return out;
@@ -397,12 +411,24 @@ impl Prop for C04 {
 		// limit oracles on valid encodings
 		let mut nontrivial = scn.valid_of.is_none();
 		if let Some(v) = &scn.valid_of {
+			let mut classes = vec![];
+			crate::val::scale_classes(v, &mut classes);
+			classes.into_iter().for_each(|c| out.count(c, 1));
 			let d = val_depth(v);
 			let s = max_seq(v);
 			let f = max_field_len(v);
 			let counts_sequences = matches!(scn.target, Target::Capture { .. } | Target::Hash | Target::Blind);
 			let alloc_limited = matches!(scn.path, Path::Reader(_)) && f > lim.max_alloc_size && f > max_chunk(&scn.path, len);
-			if !counts_sequences {
+			if matches!(scn.target, Target::Ignored) && scn.positive_counts_only && s > lim.max_seq_size && val_nesting(v) <= lim.allowed_depth && !alloc_limited {
+				// nothing in this encoding can be skipped by its byte size: every element is walked, so the
+				// limit on the number of elements applies to an ignoring caller as to any other
+				nontrivial = true;
+				out.count("limit_seq_size_exceeded_by_valid_input_ignoring_target", 1);
+				if ok {
+					out.fail("C04:max-seq-size-not-enforced:ignoring-target", format!("a sequence holds {s} elements in plain (positive-count) blocks, max_seq_size is {}, deserialize_ignored_any returned Ok", lim.max_seq_size));
+					return out;
+				}
+			} else if !counts_sequences {
 				// IgnoredAny / masked targets may skip size-prefixed blocks wholesale: no limit oracle
 				out.count("valid_input_skipping_target", 1);
 			} else if val_nesting(v) > lim.allowed_depth {
